@@ -1060,3 +1060,54 @@ func ruleCLIArgsForC06(p *Prog, r *Report) {
 func init() {
 	register("C06", "", ruleCLIArgsForC06)
 }
+
+// R-CLI-SEQ: the CLI is sequential. The commands hand their arguments to the library in the order given and
+// print what it returns; a goroutine, a channel or a select in cmd makes the order in which results are
+// collected (which of several invalid arguments is reported, the order of Compare-equal inputs handed to the
+// sort) depend on the schedule, so the same command line no longer prints the same line. Expected count of
+// such constructs is zero; the obligations are the CLI functions looked at.
+func ruleCLISeq(p *Prog, r *Report) {
+	fns := p.Representatives(p.RepoReachable(p.CLIRoots()...))
+	n := 0
+	for _, fn := range fns {
+		if fnPkg(fn) != p.Cmd.Types {
+			continue
+		}
+		n++
+		key := p.FnKey(fn) + ": sequential"
+		why, pos := "", token.NoPos
+		for _, blk := range fn.Blocks {
+			for _, ins := range blk.Instrs {
+				w := ""
+				switch x := ins.(type) {
+				case *ssa.Go:
+					w = "go statement"
+				case *ssa.Send:
+					w = "channel send"
+				case *ssa.Select:
+					w = "select"
+				case *ssa.MakeChan:
+					w = "make(chan)"
+				case *ssa.UnOp:
+					if x.Op == token.ARROW {
+						w = "channel receive"
+					}
+				}
+				if w != "" && why == "" {
+					why, pos = w, ins.Pos()
+				}
+			}
+		}
+		if why != "" {
+			r.Bad("R-CLI-SEQ", key, p.Pos(pos), why+" in CLI code: the order in which results are collected depends on the schedule, so the same command line can print different lines (which invalid argument is named, the order of equal versions)")
+		} else {
+			r.Ok("R-CLI-SEQ", key, p.FnPos(fn), "no goroutine, channel or select")
+		}
+	}
+	r.Floor("R-CLI-SEQ", 6)
+}
+
+func init() {
+	register("C15", "", ruleCLISeq)
+	register("C19", "", ruleCLISeq)
+}
